@@ -100,6 +100,14 @@ blocking `put` on a bounded queue while holding a lock its consumer needs would 
 does not show. -/
 theorem no_queue_waits : Bobo.Gen.Locks.queueWaits = [] := by decide
 
+/-- **methods are atomic steps**: every field of a lock-owning class that is written after its construction is read and
+written only with one of the object's own locks held, on every path from every thread role's entry point (the table of
+exceptions, generated from the source by following the call graph with the set of held locks, is empty).  This is what
+entitles the sequential models of the other properties (C02, C12, C15, C16, C18, C20: one public method = one step of
+the model) to speak about executions with several threads: two threads cannot interleave INSIDE a method's
+read-modify-write of the object's state. -/
+theorem fields_only_under_own_lock : Bobo.Gen.Locks.unlockedAccesses = [] := by decide
+
 /-! ### non-vacuity, and the pinned-tree defect (F6) as a counter-lemma -/
 
 /-- engine-like thread: `with E: with R: with D: …; with P: with R: …` (descends P → R under the gate). -/
